@@ -130,12 +130,23 @@ theorem class_shape (cx : Ctx) (name : String) (bases : List Expr) (kws : List K
     exact ⟨bases', metaE, kws', create, _, _, hbs, hk, hcr, Or.inr ⟨by simpa using hd, _, rfl⟩⟩
 
 /-- a member stored in a class body goes to the class dictionary (unless the name is declared
-    global or lives in an enclosing function's dictionary), and is read back from it -/
+    global or lives in an enclosing function's dictionary), and is read back from it *at class level*
+    (`bound = []`: not inside a lambda / comprehension) - whether or not some lambda or generator
+    expression of the body reads the same name as a global.  (Before FIX-D70 this needed the extra
+    hypothesis `x ∉ n.globalsInComp`: the hypothesis the proof asked for was the defect.) -/
 theorem member_store_load (n : Nsp) (x : String) (v : Expr) (i : SymInfo) (hk : n.kind = .class_)
     (hs : n.sym.lookup x = some i) (hg : i.isDeclaredGlobal = false) (hgl : i.isGlobal = false)
-    (ho : n.outerMap.lookup x = none) (hc : ¬ x ∈ n.globalsInComp) (hcl : x ≠ "__class__") :
+    (ho : n.outerMap.lookup x = none) (hcl : x ≠ "__class__") :
     n.getAssign x v = .ok (dictSetitem n.dictName x v) ∧ n.getLoad [] x = .ok (dictLoad n.dictName x) := by
-  simp [Nsp.getAssign, Nsp.getLoad, hk, hs, hg, hgl, ho, hc, hcl]
+  simp [Nsp.getAssign, Nsp.getLoad, hk, hs, hg, hgl, ho, hcl]
+
+/-- inside a lambda / comprehension of a class body (`bound` starts with the mark) a name that those inner
+    scopes read as a global, and that none of them binds, is the plain global name: the class scope is skipped -/
+theorem inner_scope_skips_class (n : Nsp) (x : String) (bound : List String) (hk : n.kind = .class_)
+    (hb : (compMark :: bound).contains x = false) (hc : x ∈ n.globalsInComp) :
+    n.getLoad (compMark :: bound) x = .ok (.name x) := by
+  simp only [List.contains_eq_mem, decide_eq_false_iff_not] at hb
+  simp [Nsp.getLoad, hk, hb, hc]
 
 /-- the last `metaclass=` keyword wins and is removed from the keywords passed on; the other
     keywords keep their order -/
